@@ -500,6 +500,7 @@ void HttpRequest::read()
 	}
 
 	_path = Url::decode(_res.substring(0, pathend));
+	_path.fix(); // a %00 in the target ends the path: nothing after it would be seen by file functions or by the ".." test
 
 	if(_path.contains(".."))
 		_path = _path.replace("..", "");
